@@ -48,6 +48,7 @@ GUARDS = {
     207: ('g_no_date', 'class', None),
     208: ('g_names_unique', 'class', None),
     209: ('g_filters_valid', 'class', None),
+    224: ('g_pk_id_kept', 'class', None),
 }
 
 CODE_TAIL = "$PRED\nY=THETA(1)+ETA(1)+EPS(1)\n$THETA 1\n$OMEGA 1\n$SIGMA 1\n$ESTIMATION METHOD=1\n"
@@ -80,6 +81,9 @@ def num_token(rng):
         return '.'
     if k < 0.985:
         return '-99'
+    if k < 0.99:
+        return rng.choice(['0.1', '0.10000000000000000555', '0.3', '0.30000000000000004', '9007199254740992', '9007199254740993',
+                           '2.0000000000000002', '1.0000000000000001', '0.5', '2147483647'])
     return rng.choice(['123456789012345678901234', '1234567890123456789012345', '0.00000000000000000000001',
                        '000000000000000000000001.5', '12345678901234567890.123', '1.5e-12', '00012.50'])
 
@@ -258,6 +262,9 @@ def gen_spec(rng, malformed=False):
             pool = [v for v in colvals[j] if v not in ('', '.')] or ['1']
             if numeric:
                 e = rng.choice(['0', '1', '2', '3', '10', '2.5', '0.5', '100', '1e1', '7', '12', '.5', '3.'])
+                if rng.random() < 0.12:     # boundary of binary64: decimals that differ but round to the same double (or not)
+                    e = rng.choice(['0.5000000000000000001', '0.1000000000000000055', '2.00000000000000001', '9007199254740993',
+                                    '0.30000000000000004', '0.1', '2.0000000000000004', '1.0000000000000002', '1.00000000000000011'])
                 if rng.random() < 0.3:
                     v = rng.choice(pool)
                     try:
@@ -716,6 +723,14 @@ def finding_probes(ctx):
     for f in ctx.findings:
         if f.get('status') != 'open':
             continue
+        if 'time_spec' in f['witness']:
+            term, _ = time_observe(f['witness']['time_spec'], ctx.rundir / 'time-finding', 0)
+            tags = set(ctx.run_cases('finding-' + f['id'], IMPORTS + ' C13.Time', 'tcase', [term], 'time_verdict')[0])
+            if {f['expect_tag'], f['guard_tag']} <= tags and 31 not in tags:
+                ctx.known(f['id'])
+            else:
+                ctx.notes.append(f"finding_not_reproduced {f['id']} (tags {sorted(tags)})")
+            continue
         if 'cycle_spec' in f['witness']:
             term, _, _ = cycle_observe(f['witness']['cycle_spec'], ctx.rundir / 'cycle-finding', 0)
             tags = set(ctx.run_cases('finding-' + f['id'], IMPORTS, 'cycle_case', [term], 'cycle_verdict')[0])
@@ -774,6 +789,225 @@ def run_cycles(ctx, n):
                              'rule': 'start models without and WITH text/numeric IGNORE/ACCEPT lists (all operators; values 1, 1.0, 01, 1e0), routes '
                                      'set_dataset(new df | same df) + write_model, write_csv + write_model(force=True|False), plain write_model; '
                                      're-read of the written files == in-memory dataset, compared exactly inside Coq'}
+    return len(kept)
+
+
+# ------------------------------------------------------------------ TIME / DATE translation
+TIME_TAGS = {31: 'translate_nmtran_time differs from the model', 34: 'translated TIME differs from hours since the first record by the calendar'}
+TIME_GUARDS = {221: ('g_three_parts', 'finding', 'C13-DATE-TWO-PART'), 222: ('g_has_date', 'finding', 'C13-TIME-CLOCK-NO-DATE'),
+               223: ('g_no_daynum', 'finding', 'C13-DATE-DAYNUM-ABSOLUTE')}
+
+
+def gen_time_spec(rng, malformed=False):
+    col = rng.choice(['DATE', 'DATE', 'DAT1', 'DAT2', 'DAT3', None])
+    kind = rng.choice(['full', 'full', 'full', 'full', 'daynum', 'two'] if col else ['none'])
+    if kind == 'two' and not malformed and rng.random() < 0.5:
+        kind = 'full'
+    sep = rng.choice(['/', '-', '.', '/'])
+    rows = []
+    ident = 1
+    y, m, d = rng.choice([1999, 2000, 2001, 2019, 2020, 2023, 1951, 2049]), rng.choice([1, 2, 2, 3, 6, 12, 12]), rng.choice([1, 15, 27, 28])
+    dn = rng.choice([0, 1, 5])
+    import datetime
+    cur = datetime.date(y, m, d)
+    two_digit = rng.random() < 0.3
+    for i in range(rng.choice([2, 3, 4, 5, 6])):
+        if i and rng.random() < 0.3:
+            ident += 1
+        cur = cur + datetime.timedelta(days=rng.choice([0, 0, 1, 1, 2, 30, 365]))
+        dn += rng.choice([0, 1, 2])
+        yy = str(cur.year % 100).zfill(rng.choice([1, 2])) if two_digit and 1951 <= cur.year <= 2050 else str(cur.year)
+        mm = str(cur.month).zfill(rng.choice([1, 2]))
+        dd = str(cur.day).zfill(rng.choice([1, 2]))
+        if kind == 'daynum':
+            date = str(dn) if rng.random() < 0.9 else '-1'
+        elif kind == 'two':
+            date = sep.join([mm, dd] if col in ('DATE', 'DAT2') else [dd, mm])
+        else:
+            order = {'DATE': [mm, dd, yy], 'DAT1': [dd, mm, yy], 'DAT2': [yy, mm, dd], 'DAT3': [yy, dd, mm]}[col or 'DATE']
+            date = sep.join(order)
+            if malformed and rng.random() < 0.15:
+                date = rng.choice(['2/30/2020', '13/1/2020', '1/2/3/4', '1//2020', 'x/1/2020', '0/1/2020'])
+        h = rng.choice([0, 1, 7, 12, 12, 23])
+        mi = rng.choice([0, 10, 20, 30, 40, 45, 59, 7])
+        tm = rng.choice([f'{h}:{mi:02d}', f'{h:02d}:{mi:02d}', f'{h}:{mi}', str(h), f'{h}.5', f'{h}.25'])
+        if malformed and rng.random() < 0.1:
+            tm = rng.choice([f'{h}:{mi:02d}:30', '25:00', 'abc', '-1', '24:00'])
+        if col is None and i == 0:
+            tm = f'{h}:{mi:02d}'                       # at least one clock time: TIME stays text
+        rows.append([str(ident), tm, date, str(rng.choice([1, 2, 3]))])
+    drop = rng.random() < 0.7
+    return {'datecol': col, 'drop': drop, 'rows': rows}
+
+
+def time_observe(spec, workdir, idx):
+    from pharmpy.modeling import read_model_from_string, translate_nmtran_time
+    d = Path(workdir)
+    d.mkdir(parents=True, exist_ok=True)
+    col = spec['datecol']
+    p = d / f't{idx}.csv'
+    if col:
+        p.write_text(''.join(','.join([r[0], r[2], r[1], r[3]]) + '\n' for r in spec['rows']))
+        inp = f"ID {col}{'=DROP' if spec['drop'] else ''} TIME DV"
+    else:
+        p.write_text(''.join(','.join([r[0], r[1], r[3]]) + '\n' for r in spec['rows']))
+        inp = 'ID TIME DV'
+    code = f"$PROBLEM c13\n$INPUT {inp}\n$DATA {p}\n" + CODE_TAIL
+    with warnings.catch_warnings():
+        warnings.simplefilter('ignore')
+        try:
+            m = read_model_from_string(code)
+            df = m.dataset
+        except Exception as e:
+            raise Skip('time start model does not read: ' + type(e).__name__)
+        ids = [F(float(x)) for x in df['ID'].tolist()]
+        times = [x if isinstance(x, str) else None for x in df['TIME'].tolist()]
+        if any(t is None for t in times):
+            raise Skip('TIME column already numeric')
+        dates = [str(x) for x in df[col].tolist()] if col else ['' for _ in times]
+        try:
+            m2 = translate_nmtran_time(m)
+            obs = '(Ok ' + ct.lst([cell_term(v) for v in m2.dataset['TIME'].tolist()]) + ')'
+            outcome = 'ok'
+        except Exception as e:
+            obs = err_term(e)
+            outcome = type(e).__name__
+    term = ('(mkT ' + ct.opt(None if col is None else s_term(col)) + ' ' + ct.lst([ct.q(i) for i in ids]) + ' '
+            + ct.lst([s_term(t) for t in times]) + ' ' + ct.lst([s_term(x) for x in dates]) + ' ' + obs + ')')
+    return term, {'outcome': outcome, 'col': col}
+
+
+def run_times(ctx, n, nm):
+    specs = [gen_time_spec(ctx.rng) for _ in range(n)] + [gen_time_spec(ctx.rng, malformed=True) for _ in range(nm)]
+    terms, kept, infos, skipped = [], [], [], 0
+    for k, spec in enumerate(specs):
+        try:
+            term, info = time_observe(spec, ctx.rundir / 'time', k)
+        except Skip:
+            skipped += 1
+            continue
+        terms.append(term)
+        kept.append(spec)
+        infos.append(info)
+    verdicts = ctx.run_cases('time', IMPORTS + ' C13.Time', 'tcase', terms, 'time_verdict', shard=200) if terms else []
+    stats = {}
+    for spec, tags in zip(kept, verdicts):
+        st = classify_time(ctx, spec, tags)
+        stats[st] = stats.get(st, 0) + 1
+    outcomes = {}
+    for i in infos:
+        outcomes[i['outcome']] = outcomes.get(i['outcome'], 0) + 1
+    ctx.coverage['time'] = {'cases': len(kept), 'skipped': skipped, 'status': stats, 'outcomes': outcomes,
+                            'rule': 'ID/TIME/DATE files: DATE, DAT1, DAT2, DAT3 (dropped or not) with 3-part dates (/, -, . separators, '
+                                    '2- and 4-digit years, leap days, year ends), day numbers, two-part dates, no date column; hh:mm, h:m, '
+                                    'decimal hours; malformed stream (invalid dates, hh:mm:ss, 24:00); translate_nmtran_time compared with '
+                                    'the model (1e-9 h) and with the calendar specification'}
+    return len(kept)
+
+
+def classify_time(ctx, spec, tags):
+    tags = set(tags)
+    gfalse = [t for t in tags if t in TIME_GUARDS]
+    if 34 in tags:
+        open_f = [TIME_GUARDS[t][2] for t in gfalse if ctx.open_finding(TIME_GUARDS[t][2])]
+        if 31 not in tags and open_f:
+            for fid in open_f:
+                ctx.coverage.setdefault('known_hits', {}).setdefault(fid, 0)
+                ctx.coverage['known_hits'][fid] += 1
+            return 'known'
+        ctx.violation(TIME_TAGS[34], {'time_spec': spec, 'tags': sorted(tags)})
+        return 'violation'
+    if 31 in tags:
+        ctx.broken.append('correspondence C13 translate_nmtran_time model vs implementation on ' + json.dumps(spec)[:400])
+        return 'broken'
+    return 'ok'
+
+
+# ------------------------------------------------------------------ $PK control streams: filter_observations
+PK_TAIL = "$SUBROUTINE ADVAN1 TRANS2\n$PK\nCL=THETA(1)*EXP(ETA(1))\nV=THETA(2)\nS1=V\n$ERROR\nY=F+EPS(1)\n$THETA 1\n$THETA 1\n$OMEGA 1\n$SIGMA 1\n"
+
+
+def gen_pk_spec(rng):
+    cols = ['ID', 'TIME', rng.choice(['AMT', 'AMT', 'DOSE=AMT', 'AMT=DOSE']), 'DV']
+    extra = rng.choice([['MDV'], ['EVID'], ['MDV', 'EVID'], ['EVID', 'MDV'], [], ['MDV=DROP'], ['MDV=DROP', 'EVID']])
+    cols += extra
+    if rng.random() < 0.3:
+        cols.insert(rng.randrange(1, len(cols)), rng.choice(['WGT', 'SEX=DROP']))
+    if rng.random() < 0.05:
+        cols = [c for c in cols if 'AMT' not in c]
+    if rng.random() < 0.05:
+        cols[0] = rng.choice(['ID=DROP', 'SUBJ'])
+    lines = []
+    ident = 1
+    for _ in range(rng.choice([2, 3, 4, 5, 6, 8])):
+        row = []
+        for c in cols:
+            nm = c.split('=')[0]
+            if nm in ('ID', 'SUBJ'):
+                row.append(str(ident))
+            elif nm in ('MDV', 'EVID'):
+                row.append(rng.choice(['0', '1', '0', '1', '1', '.', '2']) if nm == 'EVID' else rng.choice(['0', '1', '1', '1', '.']))
+            elif 'AMT' in c:
+                row.append(rng.choice(['0', '100', '0', '.', '50.5']))
+            elif nm == 'SEX':
+                row.append(rng.choice(['m', 'f']))
+            else:
+                row.append(rng.choice(['0', '1', '2.5', '10', '1d1', '.']))
+        lines.append(rng.choice([',', ',', ' ']).join(row))
+        if rng.random() < 0.5:
+            ident += 1
+    opts = rng.choice(['', '', 'IGNORE=(DV.EQN.10)', 'NULL=1', 'IGNORE=@'])
+    return {'text': '\n'.join(lines) + '\n', 'input': ' '.join(cols), 'dataopts': opts, 'pk': True}
+
+
+def observe_pk(spec, datadir, idx):
+    from pharmpy.model.external.nonmem.nmtran_parser import NMTranParser
+    from pharmpy.model.external.nonmem.parsing import parse_datainfo, parse_dataset
+    p = Path(datadir) / f'pk{idx}.csv'
+    p.write_bytes(spec['text'].encode('latin-1'))
+    code = f"$PROBLEM c13\n$INPUT {spec['input']}\n$DATA {p} {spec['dataopts']}\n" + PK_TAIL
+    in_term, info = input_term_from_code(code, spec['text'])
+    with warnings.catch_warnings():
+        warnings.simplefilter('ignore')
+        try:
+            cs = NMTranParser().parse(code)
+            di = parse_datainfo(cs, None)
+            df = parse_dataset(di, cs)
+            obs = table_term(df)
+            info['outcome'] = 'ok'
+            info['rows'] = len(df)
+        except Skip:
+            raise
+        except Exception as e:
+            obs = err_term(e)
+            info['outcome'] = type(e).__name__
+    return f'(mkCase {in_term}\n  {obs})', info
+
+
+def run_pk(ctx, n):
+    datadir = ctx.rundir / 'pk'
+    datadir.mkdir(exist_ok=True)
+    specs = [gen_pk_spec(ctx.rng) for _ in range(n)]
+    terms, kept, infos = [], [], []
+    for k, spec in enumerate(specs):
+        try:
+            term, info = observe_pk(spec, datadir, k)
+        except Skip:
+            continue
+        terms.append(term)
+        kept.append(spec)
+        infos.append(info)
+    verdicts = ctx.run_cases('pk', IMPORTS + ' C13.Pk', 'case', terms, 'pk_verdict', shard=100) if terms else []
+    stats, removed = {}, 0
+    for spec, tags in zip(kept, verdicts):
+        st = classify(ctx, spec, tags)
+        stats[st] = stats.get(st, 0) + 1
+    outcomes = {}
+    for i in infos:
+        outcomes[i['outcome']] = outcomes.get(i['outcome'], 0) + 1
+    ctx.coverage['pk'] = {'cases': len(kept), 'status': stats, 'outcomes': outcomes,
+                          'rule': '$PK control streams read through parse_datainfo + parse_dataset (read_nonmem_dataset + filter_observations): '
+                                  'MDV / EVID / AMT (synonym) label columns present, absent or dropped; compared with read_model_pk and spec_read_pk'}
     return len(kept)
 
 
@@ -854,10 +1088,12 @@ def run(ctx):
         'non-ASCII whitespace are outside the modelled alphabet (not generated)',
         'filter expressions containing a quote character, a sign or a leading zero (DataFrame.query parses them as Python '
         'source), int32 overflow of ID/L1/DVID and duplicate dropped column names are outside the model (not generated)',
-        'numeric IGNORE/ACCEPT comparisons are made on exact decimal values; pandas compares the rounded doubles '
-        '(identical for items of at most 15 significant digits, which is what is generated)',
-        'a dropped TIME column, DATE/DAT1-3 columns and TIME/DATE translation are not covered; $PK models '
-        '(filter_observations) are not covered: the tie uses $PRED control streams',
+        'numeric IGNORE/ACCEPT comparisons: the model rounds both sides to binary64 (round_double, nearest-even) as DataFrame.query '
+        'does; overflow to inf and subnormals are outside; int32 columns (ID, L1, DVID) are modelled for |value| < 2**31',
+        'TIME/DATE translation: the float arithmetic of the code (h + m/60, truncating split into h/min/s/us/ns, total_seconds()/3600) '
+        'is not modelled, the tie uses a tolerance of 1e-9 h; with nanosecond remainders pandas needs years 1678-2261',
+        'a dropped TIME column and DATE columns inside the reader model (read_model) are not covered; translate_nmtran_time is '
+        'modelled separately (Time.v)',
         'float printing of DataFrame.to_csv (repr of a double) is an engine: the write/read cycle is an oracle, its theorem '
         'is stated for any printer whose output float() reads back exactly',
     ]
@@ -870,8 +1106,8 @@ def run(ctx):
     specs = [json.loads(p.read_text()) for p in reg]
     specs = [s['spec'] if 'spec' in s else s for s in specs]
     nreg = len(specs)
-    n = 700 if ctx.tier == 'quick' else 9000
-    nm = 150 if ctx.tier == 'quick' else 2000
+    n = 700 if ctx.tier == 'quick' else 6000
+    nm = 150 if ctx.tier == 'quick' else 1500
     specs += [gen_spec(ctx.rng) for _ in range(n)]
     specs += [gen_spec(ctx.rng, malformed=True) for _ in range(nm)]
     kept, verdicts, infos, skipped = run_specs(ctx, specs, 'gen')
@@ -879,9 +1115,11 @@ def run(ctx):
     for spec, tags in zip(kept, verdicts):
         st = classify(ctx, spec, tags)
         stats[st] = stats.get(st, 0) + 1
-    ncyc = run_cycles(ctx, 90 if ctx.tier == 'quick' else 800)
+    ncyc = run_cycles(ctx, 90 if ctx.tier == 'quick' else 500)
     nenum = run_enumerations(ctx)
-    ctx.coverage['evaluations'] = len(kept) + ncyc + nenum
+    npk = run_pk(ctx, 150 if ctx.tier == 'quick' else 1000)
+    ntime = run_times(ctx, 140 if ctx.tier == 'quick' else 1200, 50 if ctx.tier == 'quick' else 400)
+    ctx.coverage['evaluations'] = len(kept) + ncyc + nenum + ntime + npk
     distinct = {json.dumps(s, sort_keys=True) for s, i in zip(kept, infos) if i.get('rows', 0) >= 1 and i['ncols'] >= 2}
     ctx.coverage['distinct_nontrivial'] = len(distinct)
     ctx.coverage['rule'] = ('data files generated from the documented lexical forms (number forms, delimiters, NULL items, '
@@ -911,6 +1149,13 @@ def run(ctx):
 
 def replay(ctx, rep):
     dedupe_findings(ctx)
+    if 'time_spec' in rep:
+        term, info = time_observe(rep['time_spec'], ctx.rundir / 'time', 0)
+        tags = ctx.run_cases('replay', IMPORTS + ' C13.Time', 'tcase', [term], 'time_verdict')[0]
+        print('time spec', json.dumps(rep['time_spec']), info)
+        print('tags', tags)
+        excused = 31 not in tags and any(t in TIME_GUARDS and ctx.open_finding(TIME_GUARDS[t][2]) for t in tags)
+        return 1 if (31 in tags or (34 in tags and not excused)) else 0
     if 'cycle_spec' in rep:
         term, readcase, info = cycle_observe(rep['cycle_spec'], ctx.rundir / 'cycle', 0)
         tags = ctx.run_cases('replay', IMPORTS, 'cycle_case', [term], 'cycle_verdict')[0]
